@@ -45,3 +45,14 @@ check("C11",
       "Trusted: z3; power-law axioms for pow. Outside: d-increasingness of Clayton (needs the sign of a mixed derivative), conditional "
       "distribution/inverse, rectangles touching the corner (inf,...,inf) where F is infinite.",
       TECH, "DESIGN.md section 3 C11")
+
+check("C01",
+      "Bounded model checking of the real chain constructors, intensity computation, q-vector, inversion probability function, 1-d adapted binary "
+      "search tree and grid cell helpers on a symbolic grid (arbitrary strictly increasing axis, 0..k refinements) and an abstract additive Lévy "
+      "measure / abstract Lévy copula: rate == mass of the state's cell (cells written from the definition), cells tile the truncated support minus "
+      "the central cell, states lie in their cells, rates >= 0, sum of rates == reported intensity; 2-d/3-d copula chains against an independent "
+      "oracle (straddling coordinates removed by margins, signed F-volumes). Holds for every model satisfying the measure interface.",
+      "Trusted: z3; abstract measure/copula axioms; intensity > 0 assumed (the library divides by it); adapted-tree obligations with the intensity "
+      "pinned to 1 and 3/2. Bounds: grid points per half-axis <= 2 (quick) / 3 (thorough), <= 2 refinements, copula 3x3 (quick), 5x5 and 3x3x3 "
+      "(thorough). Outside: probability-step grids (middle() is a root search), n-d adapted tree, float rounding.",
+      TECH, "DESIGN.md section 3 C01")
